@@ -11,21 +11,28 @@
      Qeq_bool.
    * `round(float(s))` in parse_vtt_pct is modelled as exact round-half-even of the decimal; the two agree
      whenever the literal has at most 15 significant digits (both k+1/2 and the literal are then exactly
-     distinguishable doubles); `\d` is taken as ASCII 0-9 (the code also accepts other Unicode decimal
-     digits).  The generator stays inside both restrictions.
-   * the document tree built by _TextCueParser only grows at the right edge (the `parent` pointer and the
-     ruby_rbc / ruby_rtc pointers always designate open elements on the path from the paragraph to the
-     current parent), so it is modelled by a zipper: `stack` holds the open elements, innermost first.
+     distinguishable doubles), and for every literal above 101 whatever its length: a literal beyond the float
+     range reads as infinity, which the code rejects like any value above 100 (math.isfinite, 0892ca3); `\d` is
+     taken as ASCII 0-9 (the code also accepts other Unicode decimal digits).  The generator stays inside these
+     restrictions.
+   * the document tree built by _TextCueParser is modelled by a zipper: `p_stack` holds one frame per entry of
+     self.open_tags (2ddde69), innermost first, with the element that start tag opened; the `parent` pointer is the
+     element of the first frame (the paragraph when there is none).  An end tag pops a frame only when it names it
+     (or names the ruby whose <rt> is the innermost frame); nothing can move the parent above the paragraph any more.
+     Elements are attached to their parent when their frame is closed (at the latest at the end of the cue text);
+     an Rt is attached to the Rtc of the open Ruby in the order of the <rt> start tags (slots, see `frame`).
    * a timestamp tag adds no element: it sets `self.begin` (p_begin), which every text span created afterwards
      carries as its begin relative to the cue (f39339e).
    * the cue box is limited to the root container: parse_vtt_pct rejects values above 100, line numbers beyond the
      grid are moved onto it, the size is limited by the position (WebVTT 7.2 maximum size) and by the default origin.
-   * Python exceptions that escape to_model are an explicit outcome.
+   * Python exceptions that escape to_model are an explicit outcome (only TypeError / RuntimeError are left).
    No proofs in this file. *)
 From Coq Require Import QArith Qminmax.
 From TT Require Import Base.Prelude Gen.VttTables Model.VttTokenizer.
 Local Open Scope Z_scope.
 
+(* the exception classes the check can name.  The model itself only ever produces ExType / ExRuntime (push_child refusing
+   a child): Proofs/C11/Outcome.v proves that the other branches below (marked `never`) are dead for every input *)
 Inductive exn := ExAttribute | ExUnboundLocal | ExType | ExRuntime | ExValue | ExModelInternal.
 
 (* ---------------------------------------------------------------- str helpers *)
@@ -79,13 +86,14 @@ Fixpoint replace_raw (s : text) : text :=
   | [] => []
   end.
 
-(* str.lower() as far as the tag tests can see it: ASCII letters, plus the non-ASCII code points whose
-   lower case contains an ASCII character (generated table) *)
+(* str.lower(): ASCII letters, and every non-ASCII code point with a lower case of its own (generated table, complete).
+   str.lower() has one context-sensitive rule, the final sigma: tag names holding U+03A3 are outside the model. *)
 Fixpoint assoc_zt (k : Z) (l : list (Z * text)) : option text :=
   match l with [] => None | (a, v) :: l' => if k =? a then Some v else assoc_zt k l' end.
 Definition lower_cp (c : Z) : text :=
   if (65 <=? c) && (c <=? 90) then [c + 32]
-  else match assoc_zt c lower_ascii with Some v => v | None => [c] end.
+  else if c <? 128 then [c]
+  else match assoc_zt c lower_map with Some v => v | None => [c] end.
 Definition lower (s : text) : text := flat_map lower_cp s.
 
 Definition all_digits (s : text) : bool := forallb is_digit s.
@@ -344,32 +352,72 @@ Inductive elem :=
 | ENode (k : nkind) (a : attrs) (cs : list elem)
 | ERuby (rbc rtc : list elem).          (* Ruby(Rbc(rb…), Rtc(rt…)) *)
 
+(* One frame per entry of self.open_tags, innermost first: the lower-cased tag name and the element the start tag
+   created (self.parent while the entry is the last one).  The second component of the Python entry - the parent to
+   return to - is the element of the frame below (the paragraph below the last frame): every start tag appends its
+   entry and makes the element it creates the parent, every end tag restores the parent saved in the entries it pops.
+   The element of a frame is a child of the element of the frame below, with one exception: an Rt is pushed to
+   self.ruby_rtc - the Rtc of the one open Ruby - wherever the parent is (inside an earlier, still open Rt for
+   `<ruby>a<rt>b<rt>c`).  The Rtc of a Ruby frame therefore holds a slot (None) for every Rt that is still open; the
+   innermost open Rt is the last slot. *)
 Inductive frame :=
-| FNode (k : nkind) (a : attrs) (done : list elem)
-| FRuby (rbc rtc : list elem).
+| FNode (tag : text) (k : nkind) (a : attrs) (done : list elem)
+| FRuby (tag : text) (rbc : list elem) (rtc : list (option elem)).
 
 Record pstate := mkP {
   p_root : list elem;          (* children of the paragraph so far *)
-  p_stack : list frame;        (* open elements, innermost first; [] = the paragraph is the parent *)
-  p_above : Z;                 (* 0: inside the paragraph; 1: parent is the div; 2: the body; 3: None *)
+  p_stack : list frame;        (* self.open_tags with the open elements, innermost first; [] = the paragraph is the parent *)
   p_ruby : bool;               (* self.ruby_rbc / self.ruby_rtc are not None *)
   p_begin : option Q           (* self.begin: relative begin of the text that follows the last valid timestamp tag *)
 }.
 
+Definition frame_tag (f : frame) : text := match f with FNode t _ _ _ => t | FRuby t _ _ => t end.
+Definition some_elems (l : list (option elem)) : list elem :=
+  flat_map (fun o : option elem => match o with Some e => [e] | None => [] end) l.
 Definition close_frame (f : frame) : elem :=
-  match f with FNode k a cs => ENode k a cs | FRuby b t => ERuby b t end.
+  match f with FNode _ k a cs => ENode k a cs | FRuby _ b t => ERuby b (some_elems t) end.
 
 (* append a finished element to whatever is now the innermost open element *)
 Definition attach (e : elem) (root : list elem) (stack : list frame) : list elem * list frame :=
   match stack with
   | [] => (root ++ [e], [])
-  | FNode k a cs :: st => (root, FNode k a (cs ++ [e]) :: st)
-  | FRuby b t :: st => (root, FRuby b (t ++ [e]) :: st)       (* only Rt elements are ever open inside a Ruby *)
+  | FNode tg k a cs :: st => (root, FNode tg k a (cs ++ [e]) :: st)
+  | FRuby _ _ _ :: _ => (root, stack)       (* never: Ruby.push_child raises (push_check); Rb / Rt go to Rbc / Rtc *)
   end.
+(* an Rt element goes to the slot it was given in the Rtc of the open Ruby: the last empty one *)
+Fixpoint has_none (l : list (option elem)) : bool :=
+  match l with [] => false | None :: _ => true | Some _ :: l' => has_none l' end.
+Fixpoint fill_last (e : elem) (l : list (option elem)) : list (option elem) :=
+  match l with
+  | [] => []
+  | x :: l' => if has_none l' then x :: fill_last e l'
+               else match x with None => Some e :: l' | Some _ => x :: l' end
+  end.
+Fixpoint fill_rt (e : elem) (st : list frame) : list frame :=
+  match st with
+  | [] => []
+  | FRuby tg b t :: st' => FRuby tg b (fill_last e t) :: st'
+  | f :: st' => f :: fill_rt e st'
+  end.
+Fixpoint add_rt_slot (st : list frame) : option (list frame) :=
+  match st with
+  | [] => None
+  | FRuby tg b t :: st' => Some (FRuby tg b (t ++ [None]) :: st')
+  | f :: st' => match add_rt_slot st' with Some r => Some (f :: r) | None => None end
+  end.
+Definition attach_closed (f : frame) (root : list elem) (st : list frame) : list elem * list frame :=
+  match f with
+  | FNode _ KRt a cs => (root, fill_rt (ENode KRt a cs) st)
+  | _ => attach (close_frame f) root st
+  end.
+(* one round of the loop of _handle_endtag: leaving a Ruby forgets ruby_rbc / ruby_rtc, the parent becomes the one
+   saved in the popped entry *)
 Definition pop (s : pstate) : pstate :=
   match p_stack s with
   | [] => s
-  | f :: st => let '(r, st') := attach (close_frame f) (p_root s) st in mkP r st' (p_above s) (p_ruby s) (p_begin s)
+  | f :: st =>
+    let '(r, st') := attach_closed f (p_root s) st in
+    mkP r st' (match f with FRuby _ _ _ => false | FNode _ _ _ _ => p_ruby s end) (p_begin s)
   end.
 Fixpoint close_all (fuel : nat) (s : pstate) : pstate :=
   match fuel with O => s | S f => match p_stack s with [] => s | _ => close_all f (pop s) end end.
@@ -377,22 +425,20 @@ Fixpoint close_all (fuel : nat) (s : pstate) : pstate :=
 (* add a child to the current parent: Python's push_child type checks *)
 Inductive ckind := CSpan | CBr | CRuby.
 Definition push_check (s : pstate) (c : ckind) : option exn :=
-  if p_above s =? 3 then Some ExAttribute            (* self.parent.get_doc() on None *)
-  else if 0 <? p_above s then Some ExType            (* Div / Body accept neither span, br nor ruby *)
-  else match p_stack s with
-       | [] => None                                  (* P: span, br, ruby *)
-       | FNode KSpan _ _ :: _ => match c with CRuby => Some ExType | _ => None end
-       | FNode _ _ _ :: _ => match c with CSpan => None | _ => Some ExType end     (* Rt / Rb: span only *)
-       | FRuby _ _ :: _ => Some ExRuntime            (* Ruby.push_child always raises *)
-       end.
-Definition parent_is_p (s : pstate) : bool := (p_above s =? 0) && is_nil (p_stack s).
+  match p_stack s with
+  | [] => None                                    (* P: span, br, ruby *)
+  | FNode _ KSpan _ _ :: _ => match c with CRuby => Some ExType | _ => None end
+  | FNode _ _ _ _ :: _ => match c with CSpan => None | _ => Some ExType end     (* Rt / Rb: span only *)
+  | FRuby _ _ _ :: _ => Some ExRuntime            (* Ruby.push_child always raises *)
+  end.
+Definition parent_is_p (s : pstate) : bool := is_nil (p_stack s).
 Definition make_span_attrs (s : pstate) : attrs :=
   if parent_is_p s then mkAttrs None (Some default_bg_color) None false false false None else no_attrs.
 
 Definition add_leaf (e : elem) (s : pstate) : pstate :=
-  let '(r, st) := attach e (p_root s) (p_stack s) in mkP r st (p_above s) (p_ruby s) (p_begin s).
-Definition open_node (k : nkind) (a : attrs) (s : pstate) : pstate :=
-  mkP (p_root s) (FNode k a [] :: p_stack s) (p_above s) (p_ruby s) (p_begin s).
+  let '(r, st) := attach e (p_root s) (p_stack s) in mkP r st (p_ruby s) (p_begin s).
+Definition open_node (tag : text) (k : nkind) (a : attrs) (s : pstate) : pstate :=
+  mkP (p_root s) (FNode tag k a [] :: p_stack s) (p_ruby s) (p_begin s).
 
 Definition s_ruby : text := [114;117;98;121].
 Definition s_rt : text := [114;116].
@@ -425,57 +471,53 @@ Definition style_tag (tag : text) (classes : option (list text)) (annot : option
     match classes with Some cs => fold_left apply_class cs a | None => a end
   else a.       (* "v" and unknown tags: a plain span *)
 
-(* pop open elements until the Ruby is the parent *)
-Fixpoint pop_to_ruby (fuel : nat) (s : pstate) : option pstate :=
-  match p_stack s with
-  | FRuby _ _ :: _ => Some s
-  | [] => None
-  | _ => match fuel with O => None | S f => pop_to_ruby f (pop s) end
-  end.
-
+(* _handle_starttag: the entry (tag, parent) is appended first; then a Ruby (with its Rbc and Rtc) under the parent, an
+   Rt under self.ruby_rtc, or a span under the parent *)
 Definition handle_start (tag0 : text) (classes : option (list text)) (annot : option text) (s : pstate) : pstate + exn :=
   let tag := lower tag0 in
   if starts_with s_ruby tag then
     if p_ruby s then inr ExRuntime
-    else if p_above s =? 3 then inr ExAttribute
     else match push_check s CRuby with
          | Some e => inr e
-         | None => inl (mkP (p_root s) (FRuby [] [] :: p_stack s) (p_above s) true (p_begin s))
+         | None => inl (mkP (p_root s) (FRuby tag [] [] :: p_stack s) true (p_begin s))
          end
   else if starts_with s_rt tag && p_ruby s then             (* an rt outside ruby is handled like any unknown tag *)
-    if p_above s =? 3 then inr ExAttribute
-    else match pop_to_ruby (length (p_stack s)) s with
-         | Some s' => inl (open_node KRt no_attrs s')
-         | None => inr ExModelInternal
-         end
+    match add_rt_slot (p_stack s) with
+    | Some st => inl (mkP (p_root s) (FNode tag KRt no_attrs [] :: st) (p_ruby s) (p_begin s))
+    | None => inr ExModelInternal                           (* never: ruby_rtc is set while a Ruby frame is open *)
+    end
   else
     match push_check s CSpan with
     | Some e => inr e
-    | None => inl (open_node KSpan (style_tag tag classes annot (make_span_attrs s)) s)
+    | None => inl (open_node tag KSpan (style_tag tag classes annot (make_span_attrs s)) s)
     end.
 
-Definition handle_end (attached : bool) (s : pstate) : pstate + exn :=
-  if p_above s =? 3 then inr ExAttribute
-  else if 0 <? p_above s then inl (mkP (p_root s) (p_stack s) (p_above s + 1) (p_ruby s) (p_begin s))
-  else match p_stack s with
-       | [] => inl (mkP (p_root s) [] (if attached then 1 else 3) (p_ruby s) (p_begin s))
-       | FRuby _ _ :: _ => let s' := pop s in inl (mkP (p_root s') (p_stack s') (p_above s') false (p_begin s'))
-       | FNode _ _ _ :: _ => inl (pop s)       (* Rt: Rt -> Rtc -> Ruby is one step of the zipper *)
-       end.
+(* _handle_endtag: the end tag closes the innermost open tag if it has that (lower-cased) name; the end tag of a
+   ruby element also closes its open <rt> (the parent is an Rt that was opened with the Ruby as parent); any other end
+   tag is ignored.  It never raises. *)
+Definition handle_end (tag0 : text) (s : pstate) : pstate :=
+  let tag := lower tag0 in
+  match p_stack s with
+  | [] => s
+  | f :: st =>
+    if text_eqb (frame_tag f) tag then pop s
+    else match f, st with
+         | FNode _ KRt _ _, FRuby tg _ _ :: _ => if text_eqb tg tag then pop (pop s) else s
+         | _, _ => s
+         end
+  end.
 
 (* one line of a string token: Span(Text(line)) carrying self.begin, wrapped in Rb when the parent is a Ruby *)
 Definition with_begin (b : option Q) (a : attrs) : attrs :=
   mkAttrs b (a_bg a) (a_color a) (a_bold a) (a_italic a) (a_under a) (a_lang a).
 Definition push_text_line (line : text) (s : pstate) : pstate + exn :=
-  if p_above s =? 3 then inr ExAttribute
-  else
-    let span := ENode KSpan (with_begin (p_begin s) (make_span_attrs s)) [EText line] in
-    match p_stack s with
-    | FRuby b t :: st =>
-      if p_ruby s then inl (mkP (p_root s) (FRuby (b ++ [ENode KRb no_attrs [span]]) t :: st) (p_above s) (p_ruby s) (p_begin s))
-      else inr ExAttribute
-    | _ => match push_check s CSpan with Some e => inr e | None => inl (add_leaf span s) end
-    end.
+  let span := ENode KSpan (with_begin (p_begin s) (make_span_attrs s)) [EText line] in
+  match p_stack s with
+  | FRuby tg b t :: st =>
+    if p_ruby s then inl (mkP (p_root s) (FRuby tg (b ++ [ENode KRb no_attrs [span]]) t :: st) (p_ruby s) (p_begin s))
+    else inr ExAttribute                                    (* never: ruby_rbc is set while a Ruby is the parent *)
+  | _ => match push_check s CSpan with Some e => inr e | None => inl (add_leaf span s) end
+  end.
 Fixpoint push_text_lines (first : bool) (lines : list text) (s : pstate) : pstate + exn :=
   match lines with
   | [] => inl s
@@ -495,27 +537,27 @@ Definition handle_string (value : text) (s : pstate) : pstate + exn :=
 Definition handle_ts (pbegin : Q) (ts_text : text) (s : pstate) : pstate + exn :=
   match vtt_timestamp_to_secs ts_text with
   | Some ts =>
-    if Qle_bool pbegin ts then inl (mkP (p_root s) (p_stack s) (p_above s) (p_ruby s) (Some (ts - pbegin)%Q))
+    if Qle_bool pbegin ts then inl (mkP (p_root s) (p_stack s) (p_ruby s) (Some (ts - pbegin)%Q))
     else inl s
   | None => inl s
   end.
 
-Definition handle_token (pbegin : Q) (attached : bool) (t : token) (s : pstate) : pstate + exn :=
+Definition handle_token (pbegin : Q) (t : token) (s : pstate) : pstate + exn :=
   match t with
   | TStart tag cls an => handle_start tag cls an s
-  | TEnd _ => handle_end attached s
+  | TEnd tag => inl (handle_end tag s)
   | TString v => handle_string v s
   | TTs ts => handle_ts pbegin ts s
   end.
-Fixpoint handle_tokens (pbegin : Q) (attached : bool) (ts : list token) (s : pstate) : pstate + exn :=
+Fixpoint handle_tokens (pbegin : Q) (ts : list token) (s : pstate) : pstate + exn :=
   match ts with
   | [] => inl s
-  | t :: ts' => match handle_token pbegin attached t s with inr e => inr e | inl s' => handle_tokens pbegin attached ts' s' end
+  | t :: ts' => match handle_token pbegin t s with inr e => inr e | inl s' => handle_tokens pbegin ts' s' end
   end.
 
 (* _parse_cue_text: the children of the paragraph, or the exception *)
-Definition parse_cue_text (pbegin : Q) (attached : bool) (cue_text : text) : list elem + exn :=
-  match handle_tokens pbegin attached (tokenize cue_text) (mkP [] [] 0 false None) with
+Definition parse_cue_text (pbegin : Q) (cue_text : text) : list elem + exn :=
+  match handle_tokens pbegin (tokenize cue_text) (mkP [] [] false None) with
   | inr e => inr e
   | inl s => inl (p_root (close_all (length (p_stack s)) s))
   end.
@@ -594,7 +636,7 @@ Fixpoint run_lines (items : list (option text)) (s : rstate) : outcome :=
           match rs_cur s with
           | None => Raised ExModelInternal
           | Some p =>
-            match parse_cue_text (pa_begin p) (rs_attached s) (replace_raw (strip_crlf t)) with
+            match parse_cue_text (pa_begin p) (replace_raw (strip_crlf t)) with
             | inr e => Raised e
             | inl cs =>
               let paras := if rs_attached s
